@@ -248,6 +248,8 @@ def op_transfer(rng, sess, big, fault=0.0, nmax=4, same_ok=True, washes=(1, 2, 3
     vshape = maybe_scalar(rng, vl) or (same_shape(sshape, vl) if len(swl) == n else {"k": "l", "x": list(vl)})
     op = {"op": "transfer", "src": ks, "sw": sshape, "dst": kd, "dw": dshape, "vols": vshape, "label": label_choice(rng, multiline=not sess.prog.get("flags", {}).get("fullhist")),
           "wash": rng.choice(list(washes)), "pby": rng.choice(["auto", "auto", "source", "destination"])}
+    if isinstance(op["wash"], int) and rng.random() < 0.2:
+        op["washnp"] = True
     if kw:
         op["kw"] = kw
     return op, pres_choice(rng)
